@@ -28,9 +28,13 @@ def _second_reading(prop, tier, seed, root, mod, ctx):
             return ctx
         from .rules import common as _common
         _common.STRICT_LOOPS, _common.FLATTENED = True, set(ctx2.flattened)
+        _common.READ_LOOPS.clear()
+        _common.ACCOUNTED.clear()
         mod.run(ctx2)
         if ctx2.thorough and hasattr(mod, "run_thorough"):
             mod.run_thorough(ctx2)
+        if not ctx2.result.findings:
+            _common.audit_early_exits(ctx2.result)
     except AnalysisError as e:
         ctx.result.note(f"second reading (helper-flattened program) incomplete as well: {str(e)[:300]}")
         return ctx
@@ -79,12 +83,17 @@ def run_check(prop: str, tier: str, seed: int, root=None) -> int:
         return r.finish()
     try:
         mod = rules.load(prop)
+        from .rules import common as _common
+        _common.READ_LOOPS.clear()
+        _common.ACCOUNTED.clear()
         try:
             mod.run(ctx)
             if ctx.thorough and hasattr(mod, "run_thorough"):
                 mod.run_thorough(ctx)
         except AnalysisError as e:
             ctx.result.error(str(e))
+        if not ctx.result.findings:
+            _common.audit_early_exits(ctx.result)
         ctx = _second_reading(prop, tier, seed, root, mod, ctx)
         from .report import load_known, match_known
         _known = load_known()
